@@ -12,7 +12,7 @@
   currents) with coefficients in the carrier `K`, i.e. the printed equation at a sample point.
 
   Each generator has a flag `patched`.  `patched = false` mirrors the code as it is in /repo
-  (findings F13, F18, F19, F20: constants of a branch relation -- source currents, initial
+  (findings F13, C15-c, C15-b, C15-d: constants of a branch relation -- source currents, initial
   conditions -- are not re-oriented with the component, parallel components are identified by
   node pair).  `patched = true` mirrors the code after the minimal patches proposed in DESIGN §4;
   the full-strength theorems of Props/C15 are about that variant, `…_partial` about the other.
